@@ -10,6 +10,7 @@ from __future__ import annotations
 
 import hashlib
 import json
+import unicodedata
 import multiprocessing
 import os
 import random
@@ -210,6 +211,17 @@ def value_muts(v, depth=0):
         yield "change-type", ("str", "lst")
     elif k == "zone":
         yield "replace-value", ("zone", (v[1] + "\n" if v[1] else "") + "added line", v[2], v[3])
+        # zone content is verbatim (C05): a canonically equivalent respelling of ONE line (NFC <-> NFD) and a trailing blank on ONE line
+        # are changes of the sealed value.  Their expectation is taken from the content model, not from what the reader makes of the
+        # edited text (a reader that normalises such a line would otherwise hide the edit from the oracle; seed r7-C15-a)
+        zl = v[1].split("\n") if v[1] else []
+        for i, l in enumerate(zl):
+            for form in ("NFC", "NFD"):
+                l2 = unicodedata.normalize(form, l)
+                if l2 != l:
+                    yield "zone-line-respell", ("zone", "\n".join(zl[:i] + [l2] + zl[i + 1:]), v[2], v[3])
+                    break
+            yield "zone-line-trailing-blank", ("zone", "\n".join(zl[:i] + [l + " "] + zl[i + 1:]), v[2], v[3])
         yield "change-type", ("str", v[1] or "z")
     elif k == "holo":
         yield "replace-value", ("holo", '["other"∧REQ]' if v[1] != '["other"∧REQ]' else '["x"∧REQ]')
@@ -633,6 +645,8 @@ def subject(d0, seed, cfg, out, tmpdir):
             continue
         stm, actm = impl_verify(Dm)
         exp, klass = expectation(o2, nm)
+        if kind in ("zone-line-respell", "zone-line-trailing-blank") and how == "ast":
+            exp, klass = "INVALID", "zone-content-changed (by the content model)"
         out.h("mutation_kind", kind)
         out.h("mutation_class", klass)
         out.h("mutation_status", f"{klass}->{stm}")
